@@ -5,7 +5,7 @@ from . import contrib as CB
 
 LEVEL = "other"
 
-TECHNIQUE = "abstract interpretation of the four ErrorQueue methods of both impls (ArrayVec, Vec) on abstract queues of distinct symbolic entries - every fill level for capacities 1..3 (bounded) and 0..4 (growable) - with the container operations interpreted by contract models; resulting contents/return values compared with the FIFO-with-overflow-marker specification"
+TECHNIQUE = "abstract interpretation of the four ErrorQueue methods of both impls (ArrayVec, Vec) - the impl's own method or the trait's provided one - on abstract queues of distinct symbolic entries - every fill level for capacities 1..3 (bounded; 1..8 thorough) and 0..4 (growable; 0..9 thorough) - with the container operations interpreted by contract models; resulting contents/return values compared with the FIFO-with-overflow-marker specification (the marker being the plain -350 error)"
 LEVEL_TEXT = "For each queue method and each abstract state (capacity, fill level) the final queue contents and the returned value are computed from the MIR and compared with the specification: append at the back, newest replaced by -350 when full, oldest returned first, order of the rest preserved, count, clear. The table is complete over the abstract states because the methods never inspect the entries themselves."
 LEVEL_NOTE = "Not decided: capacity 0 (pop of an empty queue panics by design of the overflow path); capacities above 3 (the methods are uniform in the capacity). Trusted: rustc MIR, the arrayvec / Vec contract models in this file."
 
